@@ -173,6 +173,9 @@ def worker(lines):
 
 
 def replay(case):
+    if case.get('kind') == 'scale':
+        v = check_scale(case['rseed'])
+        return v and v[0][2]
     if case.get('kind') == 'trace':
         return replay_trace(case)
     r = compare(case['inp'], case['out'])
@@ -289,8 +292,86 @@ def run_traces(ctx, n_traces, length, label='TokenizerTrace'):
     ctx.sample({'trace_events': traces[0][:4]})
 
 
+def check_scale(rseed, sizes=(0xfffe, 0xffff, 0x10000, 70000, (1 << 17) + 3), nconcat=3000):
+    """Lengths just past the powers of two: very long sysex messages (terminated,
+    or abandoned for another message) and long concatenations of messages, through
+    every way of feeding.  The expected output of these shapes is immediate."""
+    import mido
+    rng = random.Random(rseed)
+    out = []
+
+    def ways(stream):
+        yield 'parse_all', lambda: mido.parse_all(stream)
+        yield 'parse_all-bytes', lambda: mido.parse_all(bytes(stream))
+
+        def chunked():
+            p = mido.Parser()
+            for i in range(0, len(stream), 4093):
+                p.feed(stream[i:i + 4093])
+            return list(p)
+        yield 'feed-chunks', chunked
+
+        def bytewise():
+            p = mido.Parser()
+            for b in stream:
+                p.feed_byte(b)
+            return list(p)
+        yield 'feed_byte', bytewise
+
+        def polled():
+            p = mido.Parser()
+            got = []
+            for i in range(0, len(stream), 997):
+                p.feed(stream[i:i + 997])
+                while p.pending():
+                    got.append(p.get_message())
+            return got
+        yield 'feed-and-poll', polled
+
+    def judge(label, stream, exp):
+        for how, f in ways(stream):
+            try:
+                got = [list(m.bytes()) for m in f()]
+            except Exception as e:
+                out.append(('raises/%s/scale' % type(e).__name__, {'kind': 'scale', 'rseed': rseed},
+                            '%s: %s raised %r' % (label, how, e)))
+                return
+            if got != exp:
+                first = next((i for i, (a, b) in enumerate(zip(got, exp)) if a != b), min(len(got), len(exp)))
+                out.append(('wrong-output/%s/scale' % how, {'kind': 'scale', 'rseed': rseed},
+                            '%s: %s gave %d messages, expected %d (first difference at message %d)' % (
+                                label, how, len(got), len(exp), first)))
+                return
+    for n in sizes:
+        payload = [rng.randrange(128) for _ in range(n)]
+        note = [0x93, 1, 2]
+        judge('sysex with %d data bytes' % n, [0xf0] + payload + [0xf7] + note, [[0xf0] + payload + [0xf7], note])
+        judge('abandoned sysex with %d data bytes' % n, [0xf0] + payload + note + [0xf8], [note, [0xf8]])
+        judge('sysex with %d data bytes and a clock inside' % n,
+              [0xf0] + payload[:n // 2] + [0xf8] + payload[n // 2:] + [0xf7], [[0xf8], [0xf0] + payload + [0xf7]])
+    msgs = []
+    for _ in range(nconcat):
+        k = rng.random()
+        if k < 0.5:
+            msgs.append([rng.choice([0x80, 0x90, 0xa0, 0xb0, 0xe0]) + rng.randrange(16), rng.randrange(128),
+                         rng.randrange(128)])
+        elif k < 0.7:
+            msgs.append([rng.choice([0xc0, 0xd0]) + rng.randrange(16), rng.randrange(128)])
+        elif k < 0.8:
+            msgs.append([rng.choice([0xf8, 0xfa, 0xfb, 0xfc, 0xfe, 0xff, 0xf6])])
+        elif k < 0.9:
+            msgs.append([0xf0] + [rng.randrange(128) for _ in range(rng.randrange(6))] + [0xf7])
+        else:
+            msgs.append([rng.choice([0xf2]), rng.randrange(128), rng.randrange(128)])
+    judge('concatenation of %d messages' % len(msgs), [b for m in msgs for b in m], msgs)
+    return out[:4]
+
+
 def run(ctx):
     thorough = ctx.tier == 'thorough'
+    for key, case, msg in check_scale(ctx.seed + 404, nconcat=20000 if thorough else 3000):
+        ctx.violation('parser/' + key, case, msg)
+    ctx.replayed += 16
     runs = [('ClassAlphabet', 4), ('SmallAlphabet', 5)] if not thorough else [('ClassAlphabet', 6)]
     for alpha, maxlen in runs:
         pr = core.ParallelReplay(ctx, worker, batch_size=5000, initializer=_init_maps,
